@@ -117,6 +117,15 @@ def run(ctx: Ctx):
         if why:
             ctx.report("C08 oracle: " + why, {"kind": "prog", "source": p["source"], "flags": p["flags"], "setup": p["setup"], "after1": o.get("f1"), "after2": o.get("f2"),
                                               "pending2": o.get("snapshots2")}, tag=classify(p, o))
+    # B2: tests that mutate the compared objects afterwards (loops over one call site), run twice with all four categories
+    from . import c17
+    ms = [dict(c17.gen_sched(ctx.rng, i), flags=ALL, setup="noblack", sites=[1]) for i in range(24 if not ctx.thorough else 240)]
+    ms = [m_ for m_ in ms if c17.plain_ok(m_["source"])]
+    for p, o in zip(ms, pmap(run_twice, ms, chunksize=4)):
+        ctx.count(("mutation", p["source"]), True)
+        why = judge(p, o)
+        if why:
+            ctx.report("C08 oracle (objects mutated after the comparison): " + why, {"kind": "prog", "source": p["source"], "flags": p["flags"], "setup": p["setup"], "after1": o.get("f1"), "after2": o.get("f2")})
     ctx.coverage["oracle"]["programs_run_three_times"] = m
     ctx.sample({"program_tail": progs[0]["source"][-500:], "flags": progs[0]["flags"], "after_first_run_tail": outs[0].get("f1", "")[-500:]})
     # C
